@@ -292,6 +292,18 @@ def build_harness(timeout=1500):
     return rc == 0, (o + e)[-4000:], time.time() - t0
 
 
+FROZEN_EXE = os.path.join(CACHE, "target-frozen", "debug", "vhf")
+
+
+def build_frozen(timeout=1800):
+    """the reference harness: pinned rustfmt sources under /verif/frozen (built once; cargo is a no-op afterwards)"""
+    t0 = time.time()
+    env = rust_env()
+    env["CARGO_TARGET_DIR"] = os.path.join(CACHE, "target-frozen")
+    rc, o, e = sh(["cargo", "build", "--offline"], cwd=os.path.join(VERIF, "harness_frozen"), timeout=timeout, env=env)
+    return rc == 0, (o + e)[-3000:], time.time() - t0
+
+
 def build_bins(timeout=1500):
     """cargo build of /repo's own binaries (rustfmt, cargo-fmt, rustfmt-format-diff)
     from the working tree, hooks on, into the cache."""
@@ -501,8 +513,9 @@ def standard_run(prop, tier, seed, replay, *, dirs, props_file, trusted, gen_cas
 
 
 class _Worker:
-    def __init__(self, sub):
+    def __init__(self, sub, exe=None):
         self.sub = sub
+        self.exe = exe
         self.start()
 
     def start(self):
@@ -511,8 +524,9 @@ class _Worker:
         env.update(rust_env())
         env["VH_OUT_FD"] = str(w)
         env["RUST_BACKTRACE"] = "0"
-        exe = os.path.join(TARGET, "debug", "vh")
-        self.p = subprocess.Popen([exe, self.sub], stdin=subprocess.PIPE, stdout=subprocess.DEVNULL,
+        exe = self.exe or os.path.join(TARGET, "debug", "vh")
+        argv = [exe] + ([self.sub] if self.sub else [])
+        self.p = subprocess.Popen(argv, stdin=subprocess.PIPE, stdout=subprocess.DEVNULL,
                                   stderr=subprocess.PIPE, pass_fds=[w], env=env)
         os.close(w)
         self.r = os.fdopen(r, "rb", buffering=0)
@@ -575,7 +589,7 @@ class _Worker:
         return res
 
 
-def run_vh_pool(sub, cases, per_case_timeout=20, workers=None):
+def run_vh_pool(sub, cases, per_case_timeout=20, workers=None, exe=None):
     """run cases through `vh <sub>` worker processes; a hang / abort / stack overflow of one case is
     recorded as {"timeout":..} / {"crash": returncode} for that case only"""
     workers = workers or NCPU
@@ -585,7 +599,7 @@ def run_vh_pool(sub, cases, per_case_timeout=20, workers=None):
     lock = threading.Lock()
 
     def loop():
-        w = _Worker(sub)
+        w = _Worker(sub, exe)
         try:
             while True:
                 with lock:
